@@ -239,6 +239,7 @@ class MailboxData(MailboxDataInterface[Message]):
         self._path = path
         self._uid_validity = 0
         self._next_uid = 0
+        self._global_uid = mailbox_id.value
         self._flags: MaildirFlags | None = None
         self._messages_lock = subsystem.get().new_rwlock()
         self._selected_set = SelectedSet()
@@ -254,6 +255,11 @@ class MailboxData(MailboxDataInterface[Message]):
     @property
     def mailbox_id(self) -> ObjectId:
         return self._mailbox_id
+
+    @property
+    def global_uid(self) -> bytes:
+        """The global UID found in the UID list when it was last read."""
+        return self._global_uid
 
     @property
     def readonly(self) -> bool:
@@ -485,6 +491,7 @@ class MailboxData(MailboxDataInterface[Message]):
                 uidl.set(new_rec)
         self._uid_validity = uidl.uid_validity
         self._next_uid = uidl.next_uid
+        self._global_uid = uidl.global_uid
         return self
 
     async def snapshot(self) -> MailboxSnapshot:
@@ -556,13 +563,16 @@ class MailboxSet(MailboxSetInterface[MailboxData]):
             except FileNotFoundError as exc:
                 raise KeyError(name) from exc
         if name in self._cache:
-            mbx = self._cache[name]
-        else:
-            path = self._layout.get_path(name, self.delimiter)
-            async with UidList.with_init(path) as uidl:
-                mailbox_id = ObjectId(uidl.global_uid)
-            mbx = MailboxData(mailbox_id, maildir, path)
-            self._cache[name] = mbx
+            mbx = await self._cache[name].reset()
+            if mbx.global_uid == mbx.mailbox_id.value:
+                return mbx
+            # the folder was deleted and created again: it is another mailbox
+            # (new UIDVALIDITY, UIDs start over), not the cached one
+        path = self._layout.get_path(name, self.delimiter)
+        async with UidList.with_init(path) as uidl:
+            mailbox_id = ObjectId(uidl.global_uid)
+        mbx = MailboxData(mailbox_id, maildir, path)
+        self._cache[name] = mbx
         return await mbx.reset()
 
     async def add_mailbox(self, name: str) -> ObjectId:
